@@ -105,4 +105,146 @@ Proof.
   rewrite E in Hj. injection Hj as -> ->. exact Hb.
 Qed.
 
+Definition clip_tail (hi : option D) : ser := match hi with Some b => [(b, None)] | None => [] end.
+
+Definition upper_count (vs : ser) (hi : option D) : nat :=
+  match hi with None => length vs | Some b => count_before true (keys vs) b end.
+
+(* the rows built by clip when the lower bound is finite: the bound itself carrying the value in force there,
+   the rows strictly inside the window, and the NaN row at the upper bound *)
+Lemma clip_rows_lower (i : V) (vs : ser) a hi :
+  sorted vs -> bounds_ok (Some a) hi = true ->
+  let li := count_before false (keys vs) a in
+  let ri := upper_count vs hi in
+  let start := pred li in
+  let sliced1 := firstn (ri - start) (skipn start vs) ++ clip_tail hi in
+  (if Nat.eqb li O then (a, i) :: sliced1 else relabel_first a sliced1) =
+  (a, val_at V i vs li) :: firstn (ri - li) (skipn li vs) ++ clip_tail hi
+  /\ li <= ri.
+Proof.
+  intros Hs Hb li ri start sliced1.
+  assert (Hle : li <= ri).
+  { unfold li, ri, upper_count. destruct hi as [b|].
+    - apply count_before_mono. exact Hb.
+    - pose proof (count_before_le_length false (keys vs) a) as Hl. unfold keys in Hl. rewrite map_length in Hl. exact Hl. }
+  split; [|exact Hle].
+  destruct li as [|k] eqn:El.
+  - simpl. unfold sliced1, start. simpl. rewrite Nat.sub_0_r. reflexivity.
+  - simpl Nat.eqb. cbv iota. unfold sliced1, start. simpl pred.
+    destruct (count_before_prefix V false vs a k) as (p & v & Hn & Hpa); [fold li; lia|].
+    rewrite (skipn_cons_nth V vs k (p, v) Hn).
+    replace (ri - k) with (S (ri - S k)) by lia. simpl firstn. simpl app.
+    assert (Hv : val_at V i vs (S k) = v).
+    { simpl. unfold vals. erewrite nth_indep with (d' := snd (p, v)); [|rewrite map_length; apply nth_error_Some; congruence].
+      rewrite map_nth. apply nth_error_nth with (d := (p, v)) in Hn. rewrite Hn. reflexivity. }
+    rewrite Hv. unfold relabel_first.
+    destruct (ltb p a) eqn:Elt; [reflexivity|].
+    assert (p = a).
+    { apply ltb_total; auto. change (before false p a) with (leb p a) in Hpa. unfold leb in Hpa.
+      apply negb_true_iff in Hpa. exact Hpa. }
+    subst p. reflexivity.
+Qed.
+
+Lemma upper_count_bound s (vs : ser) hi x :
+  match hi with Some b => before s b x = false | None => True end ->
+  count_before s (keys vs) x <= upper_count vs hi.
+Proof.
+  intros Hb. unfold upper_count. destruct hi as [b|].
+  - apply count_before_impl. intros k _ Hk. simpl. eapply lt_of_before; eauto.
+  - pose proof (count_before_le_length s (keys vs) x) as Hl. unfold keys in Hl. rewrite map_length in Hl. exact Hl.
+Qed.
+
+Lemma sorted_mid_tail (vs : ser) lo_key li hi :
+  sorted vs -> ksorted_from lo_key (keys (skipn li vs)) ->
+  match hi with Some b => ltb lo_key b = true | None => True end ->
+  li <= upper_count vs hi ->
+  ksorted_from lo_key (keys (firstn (upper_count vs hi - li) (skipn li vs) ++ clip_tail hi)).
+Proof.
+  intros Hs Hsk Hlo Hle. destruct hi as [b|]; simpl clip_tail.
+  - apply snoc_sorted_from; auto.
+    + apply keys_firstn_sorted_from. exact Hsk.
+    + intros k Hk. rewrite firstn_skipn_comm in Hk.
+      replace (li + (upper_count vs (Some b) - li)) with (upper_count vs (Some b)) in Hk by lia.
+      assert (Hin : In k (keys (firstn (upper_count vs (Some b)) vs))).
+      { unfold keys in *. apply in_map_iff in Hk. destruct Hk as [r [<- Hr]]. apply in_map.
+        clear - Hr. revert Hr. generalize (firstn (upper_count vs (Some b)) vs). intros l. revert li.
+        induction l as [|c l IH]; intros [|n]; simpl; auto. intros Hr. right. eapply IH; eauto. }
+      eapply firstn_count_keys_lt; [|exact Hin]. unfold upper_count. lia.
+  - rewrite app_nil_r. apply keys_firstn_sorted_from. exact Hsk.
+Qed.
+
+Theorem clip_spec (f r : stairs) lo hi :
+  wf f -> clip f lo hi = Ok r ->
+  wf r /\ closed r = closed f /\
+  forall sd x, lim sd r x = if inside (strict_of sd) lo hi x then lim sd f x else None.
+Proof.
+  intros Wf. pose proof (wf_sorted_values f Wf) as Hs. unfold clip.
+  destruct (bounds_ok lo hi) eqn:Hb; [|discriminate]. simpl negb. cbv iota.
+  destruct lo as [a|].
+  - (* finite lower bound *)
+    destruct (clip_rows_lower (init f) (get_values f) a hi Hs Hb) as [Erows Hle].
+    intros Er. injection Er as <-.
+    assert (EX : forall rows, rows = (a, val_at V (init f) (get_values f) (count_before false (keys (get_values f)) a)) ::
+                        firstn (upper_count (get_values f) hi - count_before false (keys (get_values f)) a)
+                               (skipn (count_before false (keys (get_values f)) a) (get_values f)) ++ clip_tail hi ->
+                 forall P : stairs -> Prop,
+                 P (remove_redundant (of_values None ((a, val_at V (init f) (get_values f) (count_before false (keys (get_values f)) a)) ::
+                        firstn (upper_count (get_values f) hi - count_before false (keys (get_values f)) a)
+                               (skipn (count_before false (keys (get_values f)) a) (get_values f)) ++ clip_tail hi) (closed f))) ->
+                 P (remove_redundant (of_values None rows (closed f)))).
+    { intros rows ->. auto. }
+    match goal with |- ?G => match G with context [remove_redundant (of_values None ?rows (closed f))] =>
+      pattern (remove_redundant (of_values None rows (closed f))); apply (EX rows) end end.
+    { rewrite <- Erows. destruct hi; unfold clip_tail, upper_count; rewrite ?app_nil_r; reflexivity. }
+    clear EX Erows.
+    set (vs := get_values f) in *. set (li := count_before false (keys vs) a) in *.
+    assert (Hsorted : sorted ((a, val_at V (init f) vs li) :: firstn (upper_count vs hi - li) (skipn li vs) ++ clip_tail hi)).
+    { unfold sorted. simpl. apply sorted_mid_tail; auto.
+      - apply skipn_count_sorted_from. exact Hs.
+      - destruct hi; auto. }
+    destruct (canon_values None _ (closed f) Hsorted) as (C1 & _ & C3 & _ & C5).
+    split; [exact C1|split; [exact C3|]].
+    intros sd x. rewrite C5. set (s := strict_of sd). unfold inside. rewrite lookup_cons.
+    destruct (before s a x) eqn:Ba; [|reflexivity]. simpl andb.
+    assert (Hli : li <= count_before s (keys vs) x).
+    { apply count_before_impl. intros k _ Hk. eapply before_of_le; eauto. }
+    destruct hi as [b|]; simpl clip_tail.
+    + rewrite lookup_snoc by (eapply ksorted_from_ksorted; exact Hsorted).
+      destruct (before s b x) eqn:Bb; [reflexivity|]. simpl negb. cbv iota.
+      apply lookup_window; auto. apply (upper_count_bound s vs (Some b) x). exact Bb.
+    + rewrite app_nil_r. apply lookup_window; auto. apply (upper_count_bound s vs None x). exact I.
+  - destruct hi as [b|].
+    + (* only an upper bound *)
+      intros Er. injection Er as <-. simpl pred. rewrite Nat.sub_0_r. simpl skipn.
+      set (vs := get_values f) in *.
+      assert (Hsorted : sorted (firstn (count_before true (keys vs) b) vs ++ [(b, None)])).
+      { destruct (firstn (count_before true (keys vs) b) vs) as [|[p v] t] eqn:Ef; [exact I|].
+        unfold sorted. simpl. change (ksorted_from p (keys (t ++ [(b, None)]))).
+        assert (Hfs : sorted (firstn (count_before true (keys vs) b) vs)) by (apply firstn_sorted; exact Hs).
+        assert (Hlt : forall k, In k (keys (firstn (count_before true (keys vs) b) vs)) -> ltb k b = true).
+        { intros k Hk. eapply firstn_count_keys_lt; [|exact Hk]. lia. }
+        rewrite Ef in Hfs, Hlt. apply snoc_sorted_from.
+        - exact Hfs.
+        - apply Hlt. simpl; auto.
+        - intros k Hk. apply Hlt. simpl; auto. }
+      destruct (canon_values (init f) _ (closed f) Hsorted) as (C1 & _ & C3 & _ & C5).
+      split; [exact C1|split; [exact C3|]].
+      intros sd x. rewrite C5. set (s := strict_of sd). unfold inside. simpl andb.
+      rewrite lookup_snoc by exact Hsorted.
+      destruct (before s b x) eqn:Bb; [reflexivity|]. simpl negb. cbv iota.
+      apply lookup_firstn. apply (upper_count_bound s vs (Some b) x). exact Bb.
+    + (* no bounds: a copy *)
+      intros Er. injection Er as <-. unfold copy. split; [exact Wf|split; [reflexivity|]].
+      intros sd x. reflexivity.
+Qed.
+
+Theorem clip_error (f : stairs) lo hi e :
+  clip f lo hi = Err e -> e = EValue /\ exists a b, lo = Some a /\ hi = Some b /\ ltb a b = false.
+Proof.
+  unfold clip. destruct (bounds_ok lo hi) eqn:Hb.
+  - simpl. destruct lo, hi; discriminate.
+  - simpl. intros E. injection E as <-. split; auto.
+    unfold bounds_ok in Hb. destruct lo as [a|], hi as [b|]; try discriminate. eauto.
+Qed.
+
 End ClipFacts.
